@@ -84,13 +84,13 @@ func (fx *FnExec) run() (err error) {
 		sv := fx.makeInterface(fx.vals[fn.Params[0]], fx.iface.IfaceT)
 		fx.selfVal = &sv
 	}
-	// representation invariant of the receiver
-	if len(fn.Params) > 0 && fn.Signature.Recv() != nil {
-		if t, err := fx.typeInvFact(fx.vals[fn.Params[0]], &fx.cur); err != nil {
+	// representation invariant of the receiver and of every object passed in
+	for _, prm := range fn.Params {
+		if t, err := fx.typeInvFact(fx.vals[prm], &fx.cur); err != nil {
 			return err
 		} else if t != tTrue {
-			fx.c.comment("type invariant of the receiver")
-			fx.c.assert(sImp(sNot(fx.isNil(fx.vals[fn.Params[0]])), t))
+			fx.c.comment("type invariant of parameter " + prm.Name())
+			fx.c.assert(sImp(sNot(fx.isNil(fx.vals[prm])), t))
 		}
 	}
 	// preconditions
@@ -480,6 +480,16 @@ func (fx *FnExec) loopHeader(b *ssa.BasicBlock, li *loopInfo, edges []inEdge) er
 		li.failAtEntry = fx.heapVar(&fx.cur, "$fail", "Bool")
 	}
 	for _, p := range phis {
+		// a phi whose back-edge values are the phi itself does not change in the loop
+		invariantPhi := true
+		for i, pred := range b.Preds {
+			if fx.isBackEdge(pred, b) && p.Edges[i] != ssa.Value(p) {
+				invariantPhi = false
+			}
+		}
+		if invariantPhi {
+			continue
+		}
 		name := p.Comment
 		if name == "" {
 			name = p.Name()
@@ -773,6 +783,9 @@ func (fx *FnExec) instr(in ssa.Instruction) error {
 		} else if t != tTrue {
 			fx.oblige("typeinv", "", sImp(sNot(fx.isNil(pv)), t), "representation invariant holds when the value is published as an interface", x.Pos())
 		}
+		if fx.e.closedWorld(x.Type()) && pv.T != nil && isPointer(pv.T) && pv.Loc == nil {
+			fx.oblige("boxnil", "", sNot(sEq(pv.L[0], "0")), "a nil pointer is never stored in an AST interface value", x.Pos())
+		}
 		fx.set(x, fx.makeInterface(pv, x.Type()))
 	case *ssa.ChangeInterface:
 		v := fx.val(x.X)
@@ -954,6 +967,7 @@ func (fx *FnExec) makeInterface(v Val, it types.Type) Val {
 		fx.c.declareFun(uf, []string{"Int"}, l.Sort)
 		fx.c.assert(sEq(app(uf, h), v.L[i]))
 	}
+	fx.c.assert(app(">", h, "0")) // a boxed value is a real object
 	return Val{T: it, L: []string{intLit(int64(id)), h}}
 }
 
@@ -1494,6 +1508,9 @@ func (fx *FnExec) assumeInterfacePre() error {
 				env.names[n] = fx.vals[fn.Params[i+1]]
 			}
 		}
+		for i := 1; i < len(fn.Params); i++ {
+			env.names[fmt.Sprintf("arg%d", i-1)] = fx.vals[fn.Params[i]]
+		}
 		for _, r := range c.Req {
 			t, err := env.evalBool(r.Text)
 			if err != nil {
@@ -1511,5 +1528,11 @@ func (fx *FnExec) assumeInterfacePre() error {
 func (fx *FnExec) assumeTypeInvOf(v Val, guard string) {
 	if t, err := fx.typeInvFact(v, &fx.cur); err == nil && t != tTrue {
 		fx.assume(sImp(sAnd(guard, sNot(fx.isNil(v))), t))
+	}
+}
+
+func (fx *FnExec) assumeTypeInvIn(v Val, h *Heap) {
+	if t, err := fx.typeInvFact(v, h); err == nil && t != tTrue {
+		fx.assume(sImp(sNot(fx.isNil(v)), t))
 	}
 }
